@@ -101,7 +101,7 @@ var requiredProbes = map[string][]string{
 	"C06": {"c06_attempt_started", "c06_terminal_ok", "c06_terminal_rejected"},
 	"C07": {"crash_point_fired", "c01_promotion_checked"},
 	"C08": {"c08_fenced", "c08_class_must_not_touch"},
-	"C09": {"c09_maintenance_acknowledged_full", "c09_maintenance_acknowledged_light", "c09_leave_checked", "c09_leave_attempt_with_several_masters", "c09_freeze_ended"},
+	"C09": {"c09_maintenance_acknowledged_full", "c09_maintenance_acknowledged_light", "c09_leave_checked", "c09_leave_attempt_with_several_masters", "c09_freeze_ended", "c09_light_manager_reelected"},
 	"C10": {"c10_converged", "c10_stale_master_repointed"},
 	"C11": {"c11_recovery_mark_cleared", "c11_resetup_file_written"},
 	"C15": {"c15_get_ok", "c15_set_ok"},
